@@ -93,7 +93,7 @@ _env = None
 def env():
     global _env
     if _env is None:
-        _env = X.Env(custom={'mix': _c_mix, 'inner': _c_inner, 'qq': _c_qq, 'sf': _c_sf, 'inner2': _c_inner2, 'ms': _c_ms, 'wb': _c_wb, 'cm': _c_cm, 'conv': _c_conv, 'br': _c_br, 'cs': _c_cs, 'yk': _c_yk, 'py_abs': _py_abs, 'py_intfirst': _py_g, 'py_np0d': _py_f, 'py_np0d0': _py_f0, 'py_plain': _py_f, 'py_deriv': _py_f, 'py_both': _py_f},
+        _env = X.Env(custom={'mix': _c_mix, 'inner': _c_inner, 'qq': _c_qq, 'sf': _c_sf, 'inner2': _c_inner2, 'ms': _c_ms, 'wb': _c_wb, 'cm': _c_cm, 'conv': _c_conv, 'br': _c_br, 'cs': _c_cs, 'yk': _c_yk, 'py_abs': _py_abs, 'py_intfirst': _py_g, 'py_np0d': _py_f, 'py_np0d0': _py_f0, 'py_plain': _py_f, 'py_deriv': _py_f, 'py_both': _py_f, 'py_bound': _py_f},
                      tables={k: X.RefTable(*v) for k, v in TABLE_DATA.items()})
     return _env
 
@@ -258,7 +258,12 @@ def py_callables():
         return lambda r: numpy.array(4.0 * math.exp(-1.3 * r) + 0.05 * r * r)
     def with_abs():
         return lambda r: 1.5 * abs(r - PY_AX) ** 3 + 0.3 / r
-    return {'py_abs': (with_abs, _py_abs, True), 'py_plain': (plain, _py_f, True), 'py_deriv': (with_deriv, _py_f, False), 'py_both': (with_both, _py_f, False),
+
+    def bound():
+        # an interaction re-used for another species pair: the callable is the bound energy() method of an existing Potential object
+        import atsim.potentials as ap
+        return ap.Potential('Si', 'O', with_both()).energy
+    return {'py_bound': (bound, _py_f, True), 'py_abs': (with_abs, _py_abs, True), 'py_plain': (plain, _py_f, True), 'py_deriv': (with_deriv, _py_f, False), 'py_both': (with_both, _py_f, False),
             'py_intfirst': (intfirst, _py_g, True), 'py_np0d': (np0d, _py_f, True), 'py_np0d0': (np0d0, _py_f0, True)}
 
 
